@@ -114,7 +114,7 @@ class TlcResult:
 
 
 def tlc(module, cfg, files=None, workers=None, timeout=600, simulate=None, seed=None,
-        extra_modules=(), depth=None, coverage=False, dfid=None, heap=None, keep_dir=None, extra=None):
+        extra_modules=(), depth=None, coverage=False, dfid=None, heap=None, keep_dir=None, extra=None, on_payload=None):
     """Run TLC on spec/<module>.tla with the given cfg text in a scratch copy of spec/."""
     wd = keep_dir or scratch("verif-tlc-")
     for f in os.listdir(SPEC):
@@ -148,12 +148,34 @@ def tlc(module, cfg, files=None, workers=None, timeout=600, simulate=None, seed=
         args += ["-coverage", "1"]
     args.append(module + ".tla")
     st = time.time()
-    p = subprocess.run(args, cwd=wd, capture_output=True, text=True, errors="replace")
     r = TlcResult()
+    if on_payload is None:
+        p = subprocess.run(args, cwd=wd, capture_output=True, text=True, errors="replace")
+        r.rc = p.returncode
+        r.out = p.stdout + p.stderr
+        r.lines = p.stdout.splitlines()
+    else:
+        # streaming: payload lines (PrintT of a tuple) go to the callback and are not kept; the callback returns False
+        # to stop TLC (r.error = "aborted")
+        proc = subprocess.Popen(args, cwd=wd, stdout=subprocess.PIPE, stderr=subprocess.STDOUT, text=True, errors="replace")
+        keep, aborted = [], False
+        for ln in proc.stdout:
+            if ln.startswith('<<"'):
+                if not aborted and on_payload(ln.rstrip("\n")) is False:
+                    aborted = True
+                    proc.kill()
+            elif len(keep) < 200000:
+                keep.append(ln)
+        proc.wait()
+        r.rc = proc.returncode
+        r.out = "".join(keep)
+        r.lines = []
+        if aborted:
+            r.wall = time.time() - st
+            r.dir = wd
+            r.error = "aborted"
+            return r
     r.wall = time.time() - st
-    r.rc = p.returncode
-    r.out = p.stdout + p.stderr
-    r.lines = p.stdout.splitlines()
     r.dir = wd
     m = re.findall(r"(\d+) states generated, (\d+) distinct states found", r.out)
     if m:
@@ -167,7 +189,7 @@ def tlc(module, cfg, files=None, workers=None, timeout=600, simulate=None, seed=
     m = re.search(r"(Temporal properties were violated|Action property \S+ is violated|property (\S+) is violated)", r.out)
     if m and not r.violated:
         r.violated = m.group(0)
-    if p.returncode == 124:
+    if r.rc == 124:
         r.error = "timeout"
     elif "Error:" in r.out and not r.violated:
         mm = re.search(r"Error: (.*)", r.out)
@@ -183,19 +205,27 @@ def tlc(module, cfg, files=None, workers=None, timeout=600, simulate=None, seed=
     return r
 
 
+def parse_payload(ln, tag):
+    """one line printed by PrintT(<<tag, ToJson(x)>>) -> x (None if the line is something else)."""
+    pre = '<<"%s", ' % tag
+    if not (ln.startswith(pre) and ln.endswith(">>")):
+        return None
+    lit = ln[len(pre):-2]
+    try:
+        return json.loads(json.loads(lit))
+    except Exception:
+        # TLC escapes: try a manual unescape
+        s = lit[1:-1].replace('\\"', '"').replace("\\\\", "\\")
+        return json.loads(s)
+
+
 def tlc_payloads(res, tag):
     """JSON payloads printed by PrintT(<<tag, ToJson(x)>>)."""
-    pre = '<<"%s", ' % tag
     out = []
     for ln in res.lines:
-        if ln.startswith(pre) and ln.endswith(">>"):
-            lit = ln[len(pre):-2]
-            try:
-                out.append(json.loads(json.loads(lit)))
-            except Exception:
-                # TLC escapes: try a manual unescape
-                s = lit[1:-1].replace('\\"', '"').replace("\\\\", "\\")
-                out.append(json.loads(s))
+        x = parse_payload(ln, tag)
+        if x is not None:
+            out.append(x)
     return out
 
 
